@@ -33,6 +33,7 @@ def build(repo, profile='dev'):
         shutil.copy(os.path.join(VERIF, 'replay', 'src', f), os.path.join(out, 'src'))
     env = dict(os.environ, CARGO_NET_OFFLINE='true')
     env.pop('RUSTUP_TOOLCHAIN', None)
+    env.pop('CARGO_TARGET_DIR', None)   # the executable is looked up under <out>/target
     cmd = ['cargo', 'build', '--offline'] + (['--release'] if profile == 'release' else [])
     p = subprocess.run(cmd, cwd=out, env=env, stdout=subprocess.PIPE, stderr=subprocess.STDOUT, text=True)
     if p.returncode != 0:
